@@ -860,6 +860,7 @@ func Run(r *fw.Run) {
 	keyBinding(r)
 	overlapPart(r, nil)
 	retentionPart(r)
+	sharedListPart(r)
 	nameSweep(r)
 	// many text lines that look like signature lines (they begin with an em dash and a space): limits on the
 	// number of signatures are about signature lines, not about the text
@@ -1017,6 +1018,71 @@ func Run(r *fw.Run) {
 		}
 	})
 	r.Sample(caseT{Kind: "mutation", Text: strconv.QuoteToASCII("a\n\n" + good1 + "\n"), Verifiers: []string{"k1"}, Mutation: "flip-low@0"})
+}
+
+// ---------------------------------------------------------------- one verifier list shared by two calls
+
+type yieldingIdentity struct{ note.Verifier }
+
+func (y yieldingIdentity) Name() string    { coop.Yield(); return y.Verifier.Name() }
+func (y yieldingIdentity) KeyHash() uint32 { coop.Yield(); return y.Verifier.KeyHash() }
+
+// sharedListPart: two Open calls that share ONE value returned by VerifierList, in every interleaving at the
+// points where the list asks its members for their names and key hashes (whenever it does that). Each call
+// must return what it returns alone with a list of its own.
+func sharedListPart(r *fw.Run) {
+	l := fw.NewLocal()
+	defer r.Merge(l)
+	ks := theKeys()
+	sign := func(text string, ids ...string) []byte {
+		var ss []note.Signer
+		for _, id := range ids {
+			ss = append(ss, ks[id].signer)
+		}
+		m, _ := note.Sign(&note.Note{Text: text}, ss...)
+		return m
+	}
+	msgs := [][]byte{sign("one\n", "k1"), sign("two\n", "k2"), sign("both\n", "k2", "k1"), sign("bad\n", "bad"), sign("three\n", "k3")}
+	show := func(n *note.Note, err error) string {
+		if err != nil {
+			return "err=" + err.Error()
+		}
+		return fmt.Sprintf("text=%q sigs=%v unverified=%v", n.Text, sigList(n.Sigs), sigList(n.UnverifiedSigs))
+	}
+	mkList := func() note.Verifiers {
+		return note.VerifierList(yieldingIdentity{ks["k1"].ver}, yieldingIdentity{ks["k2"].ver})
+	}
+	solo := make([]string, len(msgs))
+	for i, m := range msgs {
+		solo[i] = show(note.Open(m, mkList()))
+	}
+	runs := 0
+	for i := range msgs {
+		for j := range msgs {
+			i, j := i, j
+			l.States++
+			k, capped := coop.Explore(func() ([]func(func()), func([]int, any)) {
+				shared := mkList()
+				var ra, rb string
+				return []func(func()){
+						func(func()) { ra = show(note.Open(msgs[i], shared)) },
+						func(func()) { rb = show(note.Open(msgs[j], shared)) },
+					}, func(sched []int, pan any) {
+						if pan != nil || ra != solo[i] || rb != solo[j] {
+							r.Violation(fmt.Sprintf("shared-list:%d:%d", i, j), fmt.Sprintf("two Open calls sharing one VerifierList, interleaving %v: results %q and %q (panic %v); alone with a list of their own: %q and %q", sched, ra, rb, pan, solo[i], solo[j]), caseT{Kind: "shared-list", Mutation: fmt.Sprintf("%d,%d", i, j)})
+						}
+					}
+			}, 20000)
+			runs += k
+			if capped {
+				r.Cap("shared verifier list: 20000 interleavings per pair reached")
+			}
+		}
+	}
+	r.Bounds["shared_verifier_list"] = fmt.Sprintf("%d ordered pairs of Open calls on one list, every interleaving at the members' Name/KeyHash calls", len(msgs)*len(msgs))
+	l.Execs += int64(runs)
+	l.Transitions += int64(runs)
+	l.Nontrivial += int64(runs)
 }
 
 // ---------------------------------------------------------------- key names
@@ -1384,6 +1450,11 @@ func Replay(r *fw.Run, raw json.RawMessage) {
 		r.States.Add(1)
 		r.Sample(c)
 		overlapPart(r, &c)
+		return
+	}
+	if c.Kind == "shared-list" {
+		r.Sample(c)
+		sharedListPart(r)
 		return
 	}
 	if c.Kind == "name" {
